@@ -86,6 +86,22 @@ func (noPeersAnnouncer) Announce(d core.Digest, h core.InfoHash, complete bool, 
 	return nil, 30 * time.Second, nil
 }
 
+// addTorrentSignal is the child's networkevent.Producer: it only tells the
+// control loop when the scheduler has registered a torrent (the dispatcher and
+// its helper goroutine exist from then on), so the parent's goroutine baseline
+// is taken in a settled state.
+type addTorrentSignal struct{ ch chan struct{} }
+
+func (p *addTorrentSignal) Produce(e *networkevent.Event) {
+	if e.Name == networkevent.AddTorrent {
+		select {
+		case p.ch <- struct{}{}:
+		default:
+		}
+	}
+}
+func (p *addTorrentSignal) Close() error { return nil }
+
 func fatal(format string, args ...interface{}) {
 	fmt.Fprintf(os.Stderr, "c14child: "+format+"\n", args...)
 	os.Exit(7)
@@ -239,10 +255,11 @@ func main() {
 		PeerID: peerID, Zone: "zone1", Cluster: "c14", IP: "127.0.0.1", Port: port,
 		Origin: spec.Role == "origin",
 	}
+	added := &addTorrentSignal{ch: make(chan struct{}, 64)}
 	var sched scheduler.Scheduler
 	sched, err = scheduler.VerifC14NewScheduler(
 		schedConfig(spec.Limiter), archive, stats, pctx, noPeersAnnouncer{},
-		networkevent.NewTestProducer(), spec.Role == "agent")
+		added, spec.Role == "agent")
 	if err != nil {
 		fatal("scheduler: %v", err)
 	}
@@ -307,6 +324,11 @@ func main() {
 				}
 				dl.mu.Unlock()
 			}()
+			// reply once the scheduler has registered the torrent
+			select {
+			case <-added.ch:
+			case <-time.After(30 * time.Second):
+			}
 			reply(map[string]interface{}{"ok": true})
 		case "download_result":
 			hexd, _ := req["digest"].(string)
